@@ -1,6 +1,7 @@
 /-
   C14 — concurrent lookups behave like sequential ones and fetch each record once.
-  Property theorems only; helper lemmas live in ModVerif/Proofs/ParCacheInv.lean and ModVerif/Proofs/ClientLatestInv.lean.
+  Property theorems only; helper lemmas live in ModVerif/Proofs/ParCacheInv.lean, ModVerif/Proofs/ClientLatestInv.lean and
+  ModVerif/Proofs/ClientMore{Honest,Flush,Seen,Finish,Max,Fetch,Seq}.lean.
 
   What is modelled: the once-per-key cache (`parCache.Do`, Model/ParCache.lean) and the protocol that maintains the
   in-memory and the stored latest tree head (Model/ClientLatest.lean), both as interleaved small-step machines with any
@@ -10,6 +11,10 @@
 -/
 import ModVerif.Proofs.ParCacheInv
 import ModVerif.Proofs.ClientLatestInv
+import ModVerif.Proofs.ClientMoreMax
+import ModVerif.Proofs.ClientMoreFetch
+import ModVerif.Proofs.ClientMoreSeq
+import ModVerif.Proofs.ClientMoreTie
 import ModVerif.Props.C13
 namespace ModVerif.Props.C14
 open ModVerif ModVerif.ParCache
@@ -116,6 +121,282 @@ example : ((run (forkParams 0 false) (fun t => t) (fun t => if t = 0 then some (
        (0, .ok), (1, .ok)]).map
       fun s => ((s.th 0).pc, (s.th 1).pc, s.config)) =
     some (.done .ok, .readConfig, some (0, 4)) := by rfl
+
+
+/-! ## Honest server: every lookup succeeds and the head ends at the largest tree seen
+
+`Honest P le Ch presented c0` (Proofs/ClientMoreHonest.lean): `Ch` is the server's one log; the empty tree, the initial
+configuration and every presented message lie on it; on it the prefix order is the order of sizes; `checkTrees` answers
+`ok` and nothing else on chain heads in size order.  `HReachable`: any interleaving, any number of clients and goroutines,
+no configuration operation fails with a non-conflict error.  `Quiescent s`: every goroutine has returned or never started. -/
+
+/-- ★ **With an honest server no goroutine ends in an error state, whatever the interleaving** — the `latestMu` retry
+loop, the `ErrWriteConflict` retry loop and the msgPast / msgNow / msgFuture cases included: in every state of every
+honest run no goroutine has returned an error or the security error, `SecurityError` was never called, and a goroutine
+that has returned has returned success, or `ErrGONOSUMDB` exactly when its path is private. -/
+theorem honest_all_succeed (P : Params M T) (le : T → T → Prop) (Ch : T → Prop) (cl : Nat → Nat)
+    (presented : Nat → Option M) (priv : Nat → Bool) (c0 : Option M) (hH : Honest P le Ch presented c0)
+    (s : St M T) (h : HReachable P cl presented priv c0 s) :
+    (∀ t, (s.th t).pc ≠ .done .err ∧ (s.th t).pc ≠ .done .security) ∧ s.sec = [] ∧
+    (∀ t x, (s.th t).pc = .done x → (priv t = false → x = .ok) ∧ (priv t = true → x = .gonosumdb)) :=
+  honest_all_succeed_inv P le Ch cl presented priv c0 hH s h
+
+/-- ★ **The shared latest tree head ends at the largest tree seen.**  In every TERMINAL state of every honest run:
+ * every goroutine that ran returned success (`ErrGONOSUMDB` for private paths);
+ * each client's in-memory head is a greatest element (`IsMax`: a member that every member is a prefix of) of what that
+   client saw (`ClientSaw`): the empty tree (its initial head), the trees presented to its goroutines, and the
+   configuration contents its goroutines read while flushing;
+ * the stored head is a greatest element of everything the system saw (`Seen`): the empty tree, the initial
+   configuration, every tree presented to any goroutine of any client;
+ * the stored head is above every client's in-memory head, and it is the initial content or equivalent to the in-memory
+   head of one of the clients (the one that flushed last).
+No liveness is claimed for arbitrary schedules (the retry loops end only under fairness); that terminal states exist
+from everywhere is `can_finish`. -/
+theorem latest_ends_at_max (P : Params M T) (le : T → T → Prop) (Ch : T → Prop) (cl : Nat → Nat)
+    (presented : Nat → Option M) (priv : Nat → Bool) (c0 : Option M) (hH : Honest P le Ch presented c0)
+    (s : St M T) (h : HReachable P cl presented priv c0 s) (hq : Quiescent s) :
+    (∀ t, (s.th t).pc = .entry ∨ (s.th t).pc = .done .ok ∨ (priv t = true ∧ (s.th t).pc = .done .gonosumdb)) ∧
+    (∀ c, IsMax le (ClientSaw P cl presented priv s c) (s.latest c)) ∧
+    IsMax le (Seen P presented priv c0 s) (cfgTree P s.config) ∧
+    (∀ c, le (s.latest c) (cfgTree P s.config)) ∧
+    (s.config = c0 ∨ ∃ c, le (cfgTree P s.config) (s.latest c) ∧ le (s.latest c) (cfgTree P s.config)) :=
+  latest_ends_at_max_inv P le Ch cl presented priv c0 hH s h hq
+
+/-- **A goroutine scheduled alone returns within 10 steps** from any state of an honest run (every answer `ok`),
+without touching the local state of any other goroutine. -/
+theorem solo_finishes (P : Params M T) (le : T → T → Prop) (Ch : T → Prop) (cl : Nat → Nat)
+    (presented : Nat → Option M) (priv : Nat → Bool) (c0 : Option M) (hH : Honest P le Ch presented c0)
+    (s : St M T) (h : HReachable P cl presented priv c0 s) (t : Nat) :
+    ∃ k s', k ≤ 10 ∧ run P cl presented priv s (List.replicate k (t, Res.ok)) = some s' ∧
+      HReachable P cl presented priv c0 s' ∧ (∃ x, (s'.th t).pc = .done x) ∧ ∀ t', t' ≠ t → s'.th t' = s.th t' :=
+  solo_finish P le Ch cl presented priv c0 hH t 10 s h (rank_le cl s t)
+
+/-- **From every state of an honest run a terminal state is reachable** (so `latest_ends_at_max` is not vacuous
+anywhere): finish the goroutines that are under way one after the other. -/
+theorem can_finish (P : Params M T) (le : T → T → Prop) (Ch : T → Prop) (cl : Nat → Nat)
+    (presented : Nat → Option M) (priv : Nat → Bool) (c0 : Option M) (hH : Honest P le Ch presented c0)
+    (s : St M T) (h : HReachable P cl presented priv c0 s) :
+    ∃ sched s', (∀ x ∈ sched, x.2 = Res.ok) ∧ run P cl presented priv s sched = some s' ∧
+      HReachable P cl presented priv c0 s' ∧ Quiescent s' :=
+  ClientLatest.can_finish P le Ch cl presented priv c0 hH s h
+
+/-- **Concurrent = sequential, for the heads and the outcomes**: two terminal states of honest runs in which the same
+goroutines ran — e.g. an arbitrary interleaving and the sequential run of the same lookups — have every goroutine in
+the same final state (same outcome) and equivalent stored heads. -/
+theorem concurrent_heads_eq_sequential (P : Params M T) (le : T → T → Prop) (Ch : T → Prop) (cl : Nat → Nat)
+    (presented : Nat → Option M) (priv : Nat → Bool) (c0 : Option M) (hH : Honest P le Ch presented c0)
+    (s1 s2 : St M T) (h1 : HReachable P cl presented priv c0 s1) (h2 : HReachable P cl presented priv c0 s2)
+    (q1 : Quiescent s1) (q2 : Quiescent s2)
+    (hsame : ∀ t, (s1.th t).pc = .entry ↔ (s2.th t).pc = .entry) :
+    (∀ t, (s1.th t).pc = (s2.th t).pc) ∧
+    le (cfgTree P s1.config) (cfgTree P s2.config) ∧ le (cfgTree P s2.config) (cfgTree P s1.config) :=
+  terminal_states_agree P le Ch cl presented priv c0 hH s1 s2 h1 h2 q1 q2 hsame
+
+/-! Non-vacuity.  The server that signs only heads of log A is `Honest` (`forkParams_honest`, for every fork point, every
+assignment of presented sizes and every initial configuration).  Concrete run: clients 0 and 1 share the
+configuration (initially A@2); goroutines 0 and 1 (client 0) are shown A@4 and A@5, goroutine 2 (client 1) is shown A@3,
+goroutine 3 is private.  Interleaved schedule with a lost `latestMu` race and write conflicts; every goroutine returns
+success and the stored head ends at A@5. -/
+
+def hSizes : Nat → Option Nat := fun t => if t = 0 then some 4 else if t = 1 then some 5 else if t = 2 then some 3 else none
+def hCl : Nat → Nat := fun t => if t = 2 then 1 else 0
+def hPriv : Nat → Bool := fun t => t = 3
+def hPresented : Nat → Option Head := fun t => (hSizes t).map fun n => (0, n)
+
+theorem hHonest : Honest (forkParams 3 false) (fun a b => forkLe 3 a b = true) (fun x => x.1 = 0) hPresented
+    ((some 2).map fun n => (0, n)) :=
+  forkParams_honest 3 hSizes (some 2)
+
+/-- goroutines 0, 1, 2, 3 interleaved step by step (round robin until each has returned) -/
+def hSched : List (Nat × Res) :=
+  [0, 1, 2, 3, 0, 1, 2, 0, 1, 2, 0, 1, 2, 0, 1, 2, 0, 1, 2, 0, 1, 2, 0, 1, 2, 0, 1, 2, 0, 1, 2, 1, 2, 1, 2, 1, 2, 1, 2, 1].map
+    fun t => (t, Res.ok)
+
+/-- the same lookups one after the other -/
+def hSeq : List (Nat × Res) :=
+  [0, 0, 0, 0, 0, 0, 0, 0, 0, 0, 1, 1, 1, 1, 1, 1, 1, 1, 1, 1, 2, 2, 2, 2, 2, 2, 2, 2, 2, 3].map fun t => (t, Res.ok)
+
+/-- what the non-vacuity examples need of a complete schedule of goroutines 0–3 -/
+theorem hTerminal (sched : List (Nat × Res)) (hok : ∀ x ∈ sched, x.2 = Res.ok)
+    (hth : ∀ x ∈ sched, x.1 = 0 ∨ x.1 = 1 ∨ x.1 = 2 ∨ x.1 = 3) (s : St Head Head)
+    (hr : run (forkParams 3 false) hCl hPresented hPriv (init (forkParams 3 false) (some (0, 2))) sched = some s)
+    (hd : ∃ x0 x1 x2 x3, (s.th 0).pc = .done x0 ∧ (s.th 1).pc = .done x1 ∧ (s.th 2).pc = .done x2 ∧ (s.th 3).pc = .done x3) :
+    HReachable (forkParams 3 false) hCl hPresented hPriv (some (0, 2)) s ∧ Quiescent s ∧
+    ∀ t, (s.th t).pc = .entry ↔ (t ≠ 0 ∧ t ≠ 1 ∧ t ≠ 2 ∧ t ≠ 3) := by
+  obtain ⟨x0, x1, x2, x3, h0, h1, h2, h3⟩ := hd
+  refine ⟨hreachable_run_ok _ _ _ _ _ sched _ s hok HReachable.init hr, ?_, fun t => ⟨fun he => ?_, fun hne => ?_⟩⟩
+  · apply quiescent_of_run _ _ _ _ _ sched s hr
+    intro x hx
+    rcases hth x hx with e | e | e | e <;> rw [e]
+    · exact ⟨_, h0⟩
+    · exact ⟨_, h1⟩
+    · exact ⟨_, h2⟩
+    · exact ⟨_, h3⟩
+  · refine ⟨?_, ?_, ?_, ?_⟩ <;> intro e <;> subst e <;> simp_all
+  · apply entry_of_run _ _ _ _ _ sched s hr
+    intro x hx e
+    rcases hth x hx with e' | e' | e' | e' <;> omega
+
+/-- a terminal state of an honest run exists in which goroutines of two clients raced: every goroutine returned
+success (goroutine 3: `ErrGONOSUMDB`), and the stored head and both in-memory heads are A@5, the largest tree presented -/
+theorem hSched_terminal : ∃ s, run (forkParams 3 false) hCl hPresented hPriv (init (forkParams 3 false) (some (0, 2))) hSched = some s ∧
+    HReachable (forkParams 3 false) hCl hPresented hPriv (some (0, 2)) s ∧ Quiescent s ∧
+    (∀ t, (s.th t).pc = .entry ↔ (t ≠ 0 ∧ t ≠ 1 ∧ t ≠ 2 ∧ t ≠ 3)) ∧
+    s.config = some (0, 5) ∧ s.latest 0 = (0, 5) ∧ s.latest 1 = (0, 5) ∧ (s.th 3).pc = .done .gonosumdb := by
+  obtain ⟨s, hs⟩ : ∃ s, run (forkParams 3 false) hCl hPresented hPriv (init (forkParams 3 false) (some (0, 2))) hSched = some s :=
+    Option.isSome_iff_exists.mp (by decide)
+  have key : ((run (forkParams 3 false) hCl hPresented hPriv (init (forkParams 3 false) (some (0, 2))) hSched).map fun s =>
+      ((s.th 0).pc, (s.th 1).pc, (s.th 2).pc, (s.th 3).pc, s.config, s.latest 0, s.latest 1)) =
+      some (.done .ok, .done .ok, .done .ok, .done .gonosumdb, some (0, 5), (0, 5), (0, 5)) := by rfl
+  rw [hs] at key
+  simp only [Option.map_some, Option.some.injEq, Prod.mk.injEq] at key
+  obtain ⟨k0, k1, k2, k3, k4, k5, k6⟩ := key
+  obtain ⟨a, b, c⟩ := hTerminal hSched (by decide) (by decide) s hs ⟨_, _, _, _, k0, k1, k2, k3⟩
+  exact ⟨s, hs, a, b, c, k4, k5, k6, k3⟩
+
+/-- … and the sequential run of the same lookups ends in a terminal state with the same outcomes and the same heads
+(an instance of `concurrent_heads_eq_sequential`, here by evaluation) -/
+theorem hSeq_terminal : ∃ s, run (forkParams 3 false) hCl hPresented hPriv (init (forkParams 3 false) (some (0, 2))) hSeq = some s ∧
+    HReachable (forkParams 3 false) hCl hPresented hPriv (some (0, 2)) s ∧ Quiescent s ∧
+    (∀ t, (s.th t).pc = .entry ↔ (t ≠ 0 ∧ t ≠ 1 ∧ t ≠ 2 ∧ t ≠ 3)) ∧
+    s.config = some (0, 5) ∧ s.latest 0 = (0, 5) ∧ s.latest 1 = (0, 5) ∧ (s.th 3).pc = .done .gonosumdb := by
+  obtain ⟨s, hs⟩ : ∃ s, run (forkParams 3 false) hCl hPresented hPriv (init (forkParams 3 false) (some (0, 2))) hSeq = some s :=
+    Option.isSome_iff_exists.mp (by decide)
+  have key : ((run (forkParams 3 false) hCl hPresented hPriv (init (forkParams 3 false) (some (0, 2))) hSeq).map fun s =>
+      ((s.th 0).pc, (s.th 1).pc, (s.th 2).pc, (s.th 3).pc, s.config, s.latest 0, s.latest 1)) =
+      some (.done .ok, .done .ok, .done .ok, .done .gonosumdb, some (0, 5), (0, 5), (0, 5)) := by rfl
+  rw [hs] at key
+  simp only [Option.map_some, Option.some.injEq, Prod.mk.injEq] at key
+  obtain ⟨k0, k1, k2, k3, k4, k5, k6⟩ := key
+  obtain ⟨a, b, c⟩ := hTerminal hSeq (by decide) (by decide) s hs ⟨_, _, _, _, k0, k1, k2, k3⟩
+  exact ⟨s, hs, a, b, c, k4, k5, k6, k3⟩
+
+/-- the hypotheses of `concurrent_heads_eq_sequential` are satisfied by the two runs above -/
+example : ∃ s1 s2, HReachable (forkParams 3 false) hCl hPresented hPriv (some (0, 2)) s1 ∧
+    HReachable (forkParams 3 false) hCl hPresented hPriv (some (0, 2)) s2 ∧ Quiescent s1 ∧ Quiescent s2 ∧
+    (∀ t, (s1.th t).pc = .entry ↔ (s2.th t).pc = .entry) ∧ s1.config = some (0, 5) := by
+  obtain ⟨s1, _, a1, b1, c1, d1, _⟩ := hSched_terminal
+  obtain ⟨s2, _, a2, b2, c2, _⟩ := hSeq_terminal
+  exact ⟨s1, s2, a1, a2, b1, b2, fun t => (c1 t).trans (c2 t).symm, d1⟩
+
+end
+
+/-! ## Each distinct lookup is fetched at most once per client (record cache and tile cache) -/
+
+section
+open ModVerif.ClientFetch
+
+/-- ★ **Each distinct lookup is fetched from cache or network at most once per client, and all callers get that
+fetch's result.**  `Client.Lookup(path, vers)` calls `c.record.Do(file, f)` with `file = lookupFile name path vers`
+(`c.name + "/lookup/" + EscapePath(path) + "@" + EscapeVersion(TrimSuffix(vers, "/go.mod"))`; `none` = the request is
+rejected before `Do`), and `f` is the only place where `ReadCache(file)` / `ReadRemote` happen.  For the `parCache`
+machine with these keys, any number of callers of one client, every interleaving:
+ * `f` has run at most once for every key, i.e. at most once per distinct cache file;
+ * a caller that has returned got the result of the one run for its file;
+ * two callers whose requests have the same cache file got the same result.
+Which requests have the same file: `fetch_key_eq_iff` (same path byte for byte, same version up to the `/go.mod`
+suffix), `fetch_key_gomod`. -/
+theorem fetch_once {V : Type} (isLetter : Nat → Bool) (name : Bytes) (path vers : Nat → Bytes) (fval : Nat → V)
+    (s : St V) (h : Reachable (fun i => lookupKey isLetter name (path i) (vers i)) fval s) :
+    (∀ k, s.runs k ≤ 1) ∧
+    (∀ i, s.pc i = .returned →
+      s.runs (lookupKey isLetter name (path i) (vers i)) = 1 ∧
+      (s.ran (lookupKey isLetter name (path i) (vers i))).isSome = true ∧
+      s.got i = s.ran (lookupKey isLetter name (path i) (vers i))) ∧
+    (∀ i j, s.pc i = .returned → s.pc j = .returned →
+      lookupFile isLetter name (path i) (vers i) = lookupFile isLetter name (path j) (vers j) → s.got i = s.got j) :=
+  fetch_once_inv isLetter name path vers fval s h
+
+/-- **`lookupFile` IS the key `Lookup` uses**: the sequential client model's `Client.lookup` (Model/Client.lean) rejects
+the request with the escape error iff `lookupFile` is `none`; otherwise it consults the record cache under
+`lookupFile`, and on a miss runs `lookupWork` — the only function that reads the lookup file from cache or network —
+with that file, storing its result (error or data) under that key. -/
+theorem lookup_uses_fetch_key {σ H : Type} [DecidableEq H] (P : Client.Params H) (E : Client.Env σ)
+    (w : Client.World σ H) (path vers : Bytes) :
+    Client.lookup P E w path vers =
+      if Module.matchPrefixPatterns P.glob P.nosumdb path then ((.error .gonosumdb, w) : Except Client.Err (List Bytes) × Client.World σ H) else
+      let w := Client.init P E w
+      match w.c.inited with
+      | some (some e) => (.error e, w)
+      | _ =>
+        match lookupFile P.isLetter w.c.name path vers with
+        | none => (.error .escape, w)
+        | some file =>
+          let res : Except Client.Err Bytes × Client.World σ H :=
+            match w.c.record.lookup file with
+            | some r => (r, w)
+            | none =>
+              let r := Client.lookupWork P E w file (file.drop w.c.name.length)
+              (r.1, { r.2 with c := { r.2.c with record := (file, r.1) :: r.2.c.record } })
+          match res.1 with
+          | .error e => (.error e, res.2)
+          | .ok data => (.ok (Client.filterLines (path ++ [32] ++ vers ++ [32]) data), res.2) :=
+  lookup_eq_via_lookupFile P E w path vers
+
+/-- **Which requests share one fetch**: two accepted requests have the same cache file — equivalently the same
+`parCache` key — iff they name the same module path, byte for byte (`Foo` and `foo` are different modules, escaped `!foo`
+and `foo`: the upper-case path has its own key), and the same version once a `/go.mod` suffix is stripped. -/
+theorem fetch_key_eq_iff (isLetter : Nat → Bool) (name p v q w f g : Bytes)
+    (hf : lookupFile isLetter name p v = some f) (hg : lookupFile isLetter name q w = some g) :
+    (lookupKey isLetter name p v = lookupKey isLetter name q w ↔ f = g) ∧
+    (f = g ↔ p = q ∧ trimGoMod v = trimGoMod w) :=
+  ⟨lookupKey_eq_iff isLetter name p v q w f g hf hg, lookupFile_eq_iff isLetter name p v q w f g hf hg⟩
+
+/-- **`v` and `v/go.mod` share one key** (one fetch serves the module hash and the go.mod hash), for every path and
+every `v` that does not itself end in `/go.mod`. -/
+theorem fetch_key_gomod (isLetter : Nat → Bool) (name path v : Bytes) (h : hasSuffixB v (B "/go.mod") = false) :
+    lookupFile isLetter name path (v ++ B "/go.mod") = lookupFile isLetter name path v ∧
+    lookupKey isLetter name path (v ++ B "/go.mod") = lookupKey isLetter name path v := by
+  have e := lookupFile_gomod isLetter name path v h
+  exact ⟨e, by simp only [lookupKey, e]⟩
+
+/-- **The tile cache** (`c.tileCache.Do(tile, …)`, keyed by the `tlog.Tile` value; `tileKey` numbers tiles
+injectively): each tile is read from cache or network at most once per client, and callers asking for the same tile get
+the same bytes. -/
+theorem tile_fetch_once {V : Type} (tile : Nat → Tile.Tile) (fval : Nat → V) (s : St V)
+    (h : Reachable (fun i => tileKey (tile i)) fval s) :
+    (∀ t, s.runs (tileKey t) ≤ 1) ∧
+    (∀ i, s.pc i = .returned → s.runs (tileKey (tile i)) = 1 ∧ s.got i = s.ran (tileKey (tile i)) ∧ (s.got i).isSome = true) ∧
+    (∀ i j, s.pc i = .returned → s.pc j = .returned → (tile i = tile j ↔ tileKey (tile i) = tileKey (tile j)) ∧
+      (tile i = tile j → s.got i = s.got j)) :=
+  once_per_key tileKey tileKey_inj tile fval s h
+
+/-- ★ **Concurrent = sequential, for the results**: with an honest server the result of the fetch depends only on the
+key (`fval i = F (key i)`: the server's record for that module and version); then every caller that has returned holds
+`F` of its key, in every interleaving — so any two interleavings, in particular a concurrent one and the sequential
+one, return the same result to every caller that returned in both (equal maps caller ↦ result, hence equal multisets
+of (key, result) pairs).  The outcome and head side is `concurrent_heads_eq_sequential`. -/
+theorem concurrent_results_eq_sequential {V : Type} (key : Nat → Nat) (F : Nat → V) (fval : Nat → V)
+    (hF : ∀ i, fval i = F (key i)) (s1 s2 : St V) (h1 : Reachable key fval s1) (h2 : Reachable key fval s2) :
+    (∀ i, s1.pc i = .returned → s1.got i = some (F (key i))) ∧
+    (∀ i, s1.pc i = .returned → s2.pc i = .returned → s1.got i = s2.got i) :=
+  ⟨fun i hi => results_deterministic key F fval hF s1 h1 i hi,
+   fun i hi1 hi2 => results_eq_any_two key F fval hF s1 s2 h1 h2 i hi1 hi2⟩
+
+/-! Non-vacuity: the keys of real requests.  The upper-case path is escaped; the `/go.mod` spelling shares the file. -/
+
+example : lookupFile (fun _ => false) (B "sum.golang.org") (B "github.com/Foo/bar") (B "v1.2.3/go.mod") =
+    some (B "sum.golang.org/lookup/github.com/!foo/bar@v1.2.3") := by decide +kernel
+
+example : lookupFile (fun _ => false) (B "sum.golang.org") (B "github.com/Foo/bar") (B "v1.2.3") =
+    some (B "sum.golang.org/lookup/github.com/!foo/bar@v1.2.3") := by decide +kernel
+
+example : lookupFile (fun _ => false) (B "sum.golang.org") (B "github.com/foo/bar") (B "v1.2.3") =
+    some (B "sum.golang.org/lookup/github.com/foo/bar@v1.2.3") := by decide +kernel
+
+example : hasSuffixB (B "v1.2.3") (B "/go.mod") = false := by decide +kernel
+
+/-- the contended schedule of `exSched`, now with the client's keys: callers 0 and 1 ask for `v1.2.3` and
+`v1.2.3/go.mod` of one module (one key, one fetch, both get caller 0's result), caller 2 for the lower-case path. -/
+def fxPath : Nat → Bytes := fun i => if i = 2 then B "github.com/foo/bar" else B "github.com/Foo/bar"
+def fxVers : Nat → Bytes := fun i => if i = 1 then B "v1.2.3/go.mod" else B "v1.2.3"
+
+example : ((run (fun i => lookupKey (fun _ => false) (B "s") (fxPath i) (fxVers i)) exVal (init Nat) exSched).map
+    (fun s => (s.got 0, s.got 1, s.got 2, s.pc 0, s.pc 1, s.pc 2))) =
+    some (some 10, some 10, some 12, .returned, .returned, .returned) := by decide +kernel
+
+/-- honest fetch results (`fval i = F (key i)`) -/
+example : ∀ i, (fun i => 100 + exKey i) i = (fun k => 100 + k) (exKey i) := fun _ => rfl
 
 end
 
